@@ -28,38 +28,38 @@ theorem G1.mem_all (g : G1) : g ∈ G1.all := by cases g <;> decide
 def g1Name (g : G1) : Str := (gateName (.g1 g)).getD []
 def g2Name (g : G2) : Str := (gateName (.g2 g)).getD []
 
-theorem tbl_gateName_some : ∀ k ∈ Cls.all, (gateName k).isSome = true := by decide
-theorem tbl_g1Name_nil : ∀ g ∈ G1.all, (g1Name g == []) = (g == G1.I) := by decide
-theorem tbl_g1_roundtrip : ∀ g ∈ G1.all, g ≠ .I → nameToClass (g1Name g) = some (.g1 g) := by decide
-theorem tbl_g2_roundtrip : ∀ g ∈ [G2.CNOT, G2.CZ], nameToClass (g2Name g) = some (.g2 g) := by decide
-theorem tbl_g1_oneQubit : ∀ g ∈ G1.all, isOneQubit (.g1 g) = true := by decide
-theorem tbl_g1_notMulti : ∀ g ∈ G1.all, multiComp (.g1 g) = false := by decide
-theorem tbl_classical_x : nameToClass ("classical ".toList ++ ['x']) = some (.gc .CCNOT) := by decide
-theorem tbl_classical_z : nameToClass ("classical ".toList ++ ['z']) = some (.gc .CCZ) := by decide
-theorem tbl_classical_reset_x : nameToClass ("classical reset ".toList ++ ['x']) = some (.gc .MCR) := by decide
-theorem tbl_emptyInfo : emptyInfo.usage = .empty ∧ emptyInfo.multi = false ∧ emptyInfo.imports = [] := by decide
+theorem tbl_gateName_some : ∀ k ∈ Cls.all, (gateName k).isSome = true := by decide +kernel
+theorem tbl_g1Name_nil : ∀ g ∈ G1.all, (g1Name g == []) = (g == G1.I) := by decide +kernel
+theorem tbl_g1_roundtrip : ∀ g ∈ G1.all, g ≠ .I → nameToClass (g1Name g) = some (.g1 g) := by decide +kernel
+theorem tbl_g2_roundtrip : ∀ g ∈ [G2.CNOT, G2.CZ], nameToClass (g2Name g) = some (.g2 g) := by decide +kernel
+theorem tbl_g1_oneQubit : ∀ g ∈ G1.all, isOneQubit (.g1 g) = true := by decide +kernel
+theorem tbl_g1_notMulti : ∀ g ∈ G1.all, multiComp (.g1 g) = false := by decide +kernel
+theorem tbl_classical_x : nameToClass ("classical ".toList ++ ['x']) = some (.gc .CCNOT) := by decide +kernel
+theorem tbl_classical_z : nameToClass ("classical ".toList ++ ['z']) = some (.gc .CCZ) := by decide +kernel
+theorem tbl_classical_reset_x : nameToClass ("classical reset ".toList ++ ['x']) = some (.gc .MCR) := by decide +kernel
+theorem tbl_emptyInfo : emptyInfo.usage = .empty ∧ emptyInfo.multi = false ∧ emptyInfo.imports = [] := by decide +kernel
 /-- no exportable class needs an `import` line (an import line would not survive `from_openqasm`) -/
-theorem tbl_imports_nil : ∀ k ∈ Cls.all, importStrings k = [] := by decide
+theorem tbl_imports_nil : ∀ k ∈ Cls.all, importStrings k = [] := by decide +kernel
 /-- the header line passes the importer's check -/
-theorem tbl_header : (Gen.header.toList.filter fun c => !isWs c) = "OPENQASM2.0;".toList := by decide
+theorem tbl_header : (Gen.header.toList.filter fun c => !isWs c) = "OPENQASM2.0;".toList := by decide +kernel
 
 /-- JSON: every exportable class survives class → name → class, no JSON name is empty (so `if name:` keeps it), and
     `from_json` picks the constructor signature of the class -/
-theorem tbl_json_roundtrip : ∀ k ∈ Cls.all, (classToName k).bind nameToClass = some k := by decide
-theorem tbl_json_nonempty : ∀ k ∈ Cls.all, classToName k ≠ some [] := by decide
-theorem tbl_json_shape : ∀ k ∈ Cls.all, jsonShape k = k.shape := by decide
+theorem tbl_json_roundtrip : ∀ k ∈ Cls.all, (classToName k).bind nameToClass = some k := by decide +kernel
+theorem tbl_json_nonempty : ∀ k ∈ Cls.all, classToName k ≠ some [] := by decide +kernel
+theorem tbl_json_shape : ∀ k ∈ Cls.all, jsonShape k = k.shape := by decide +kernel
 
 /-- shape of a one-qubit gate name that the `sdg|.` tokeniser splits off correctly -/
 def tokOK (n : Str) : Bool := n == "sdg".toList || (n.length == 1 && n.head? != some 'd')
 
-theorem tbl_g1_tokOK : ∀ g ∈ G1.all, g ≠ .I → tokOK (g1Name g) = true := by decide
+theorem tbl_g1_tokOK : ∀ g ∈ G1.all, g ≠ .I → tokOK (g1Name g) = true := by decide +kernel
 
 /-- the non-empty one-qubit gate names -/
 def g1Names : List Str := (G1.all.filter (· != .I)).map g1Name
 
 /-- no key of `name_to_class_map` is a concatenation of two or more one-qubit gate names -/
 theorem tbl_no_key_is_concat :
-    ∀ κ ∈ nameToClassTbl.map (·.1), ¬ (2 ≤ (tokenise κ).length ∧ ∀ t ∈ tokenise κ, t ∈ g1Names) := by decide
+    ∀ κ ∈ nameToClassTbl.map (·.1), ¬ (2 ≤ (tokenise κ).length ∧ ∀ t ∈ tokenise κ, t ∈ g1Names) := by decide +kernel
 
 /-! ## Part 2: `re.findall(r"sdg|.", name)` inverts concatenation of one-qubit gate names -/
 
@@ -848,7 +848,7 @@ theorem fromOpenqasm_toOpenqasm (c : Circuit) (seq : List Op) (h : ∀ op ∈ se
 
 /-! ## Part 5: JSON -/
 
-theorem tbl_json_not_wrapper : ∀ k ∈ Cls.all, classToName k ≠ some "one qubit gate wrapper".toList := by decide
+theorem tbl_json_not_wrapper : ∀ k ∈ Cls.all, classToName k ≠ some "one qubit gate wrapper".toList := by decide +kernel
 
 theorem classToName_some (k : Cls) : ∃ n, classToName k = some n ∧ n ≠ [] ∧ nameToClass n = some k ∧
     n ≠ "one qubit gate wrapper".toList := by
@@ -1001,5 +1001,604 @@ theorem flat_filterMap_normOp (seq : List Op) : flat (seq.filterMap normOp) = fl
   | cons op rest ih =>
     rw [flat_cons op rest, ← flat_normOp op, ← ih, ← flat_append]
     cases h : normOp op <;> simp [h]
+
+/-! ## Part 6: the header's composite definitions and the standard reading of the program -/
+
+theorem tbl_defs_no_newline : ∀ k ∈ Cls.all, ∀ d ∈ definitions k, ¬ '\n' ∈ d := by decide +kernel
+theorem tbl_emptyDefs_no_newline : ∀ d ∈ emptyInfo.defs, d.comp = none ∧ ¬ '\n' ∈ d.text := by decide +kernel
+theorem tbl_g1Name_no_space : ∀ g ∈ G1.all, ¬ ' ' ∈ g1Name g := by decide +kernel
+theorem tbl_g2_not_concat : ∀ g ∈ [G2.CNOT, G2.CZ],
+    ¬ (2 ≤ (tokenise (g2Name g)).length ∧ ∀ t ∈ tokenise (g2Name g), t ∈ g1Names) := by decide +kernel
+
+/-- an entry of `openqasm_defs` that is a plain class definition -/
+def PlainDef (d : DefEntry) : Prop := d.comp = none ∧ ¬ '\n' ∈ d.text
+
+/-- body text of a composite definition: one call per line, in the order of `body` -/
+def usageText (body : List Str) : Str := (body.map fun n => n ++ " a;\n".toList).flatten
+
+/-- the text of a composite definition -/
+def compText (name : Str) (body : List Str) : Str :=
+  "gate ".toList ++ name ++ " a { \n".toList ++ usageText body ++ "}".toList
+
+theorem classInfo_g1_defs (g : G1) (i : QInfo) (h : classInfo (.g1 g) = .ok i) : ∀ d ∈ i.defs, PlainDef d := by
+  simp only [classInfo, gateName_g1] at h
+  injection h with h; subst h
+  intro d hd
+  simp only [List.mem_map] at hd
+  obtain ⟨t, ht, rfl⟩ := hd
+  exact ⟨rfl, tbl_defs_no_newline _ (Cls.mem_all _) t ht⟩
+
+/-- second loop invariant of `single_qubit_wrapper_info`: definitions collected so far are plain class definitions,
+    the body text is the list of calls in application order, and the dictionary's keys are exactly "" and the names seen -/
+structure WrapInv2 (a : WrapAcc) (names : List Str) : Prop where
+  defsPlain : ∀ d ∈ a.defs, PlainDef d
+  dictPlain : ∀ n i, lookupTbl a.dict n = some i → ∀ d ∈ i.defs, PlainDef d
+  dictKeys : ∀ n, (lookupTbl a.dict n).isSome = true → n = [] ∨ n ∈ names
+  dictHas : ∀ n ∈ names, (lookupTbl a.dict n).isSome = true
+  defUsage : a.defUsage = usageText (names.filter (· ≠ [])).reverse
+
+theorem wrapInv2_init : WrapInv2 {} [] := by
+  refine ⟨fun d hd => by simp at hd, ?_, ?_, fun n hn => by simp at hn, rfl⟩
+  · intro n i h d hd
+    have h' : lookupTbl (dictSet [] [] emptyInfo) n = some i := h
+    rw [lookupTbl_dictSet] at h'
+    by_cases hn : n = []
+    · simp [hn] at h'; subst h'; exact tbl_emptyDefs_no_newline d hd
+    · simp [hn, lookupTbl] at h'
+  · intro n h
+    have h' : (lookupTbl (dictSet [] [] emptyInfo) n).isSome = true := h
+    rw [lookupTbl_dictSet] at h'
+    by_cases hn : n = []
+    · exact Or.inl hn
+    · simp [hn, lookupTbl] at h'
+
+theorem usageText_snoc (l : List Str) (n : Str) : usageText (l ++ [n]) = usageText l ++ (n ++ " a;\n".toList) := by
+  simp [usageText]
+
+theorem wrapStep_inv2 (a : WrapAcc) (names : List Str) (g : G1) (h : WrapInv2 a names) :
+    ∃ a', wrapStep a g = .ok a' ∧ WrapInv2 a' (names ++ [g1Name g]) := by
+  obtain ⟨i, hi, hname, _, _, _⟩ := classInfo_g1 g
+  have hplain := classInfo_g1_defs g i hi
+  have hdict : ∀ (d : List (Str × QInfo)), d = a.dict →
+      (∀ n j, lookupTbl (dictSet d i.gateName i) n = some j → ∀ x ∈ j.defs, PlainDef x) ∧
+      (∀ n, (lookupTbl (dictSet d i.gateName i) n).isSome = true → n = [] ∨ n ∈ names ++ [g1Name g]) ∧
+      (∀ n ∈ names ++ [g1Name g], (lookupTbl (dictSet d i.gateName i) n).isSome = true) := by
+    intro d hd; subst hd
+    refine ⟨?_, ?_, ?_⟩
+    · intro n j hj x hx
+      rw [lookupTbl_dictSet] at hj
+      split at hj
+      · simp at hj; subst hj; exact hplain x hx
+      · exact h.dictPlain n j hj x hx
+    · intro n hn
+      rw [lookupTbl_dictSet] at hn
+      split at hn
+      · rename_i hnk; right; simp [hnk, hname]
+      · rcases h.dictKeys n hn with h0 | h0
+        · exact Or.inl h0
+        · right; simp [h0]
+    · intro n hn
+      rw [lookupTbl_dictSet]
+      split
+      · rfl
+      · rename_i hnk
+        rcases List.mem_append.1 hn with h0 | h0
+        · exact h.dictHas n h0
+        · simp at h0; exact absurd (h0.trans hname.symm) hnk
+  obtain ⟨hd1, hd2, hd3⟩ := hdict a.dict rfl
+  by_cases hn : g1Name g = []
+  · refine ⟨{ a with dict := dictSet a.dict i.gateName i }, ?_, ?_⟩
+    · simp [wrapStep, hi, bind, Except.bind, pure, Except.pure, hname, hn]
+    · exact ⟨h.defsPlain, hd1, hd2, hd3, by simp [h.defUsage, hn]⟩
+  · refine ⟨{ a with
+               dict := dictSet a.dict i.gateName i, imports := a.imports ++ i.imports, defs := a.defs ++ i.defs,
+               gateName := a.gateName ++ i.gateName, defUsage := i.gateName ++ " a;\n".toList ++ a.defUsage,
+               body := i.gateName :: a.body }, ?_, ?_⟩
+    · simp [wrapStep, hi, bind, Except.bind, pure, Except.pure, hname, hn]
+    · refine ⟨?_, hd1, hd2, hd3, ?_⟩
+      · intro d hd
+        rcases List.mem_append.1 hd with h0 | h0
+        · exact h.defsPlain d h0
+        · exact hplain d h0
+      · show i.gateName ++ " a;\n".toList ++ a.defUsage = _
+        rw [h.defUsage, hname]
+        simp [hn, usageText]
+
+theorem wrapFold_inv2 (gs : List G1) (a : WrapAcc) (names : List Str) (h : WrapInv2 a names) :
+    ∃ a', gs.foldlM wrapStep a = .ok a' ∧ WrapInv2 a' (names ++ gs.map g1Name) := by
+  induction gs generalizing a names with
+  | nil => exact ⟨a, rfl, by simpa using h⟩
+  | cons g rest ih =>
+    obtain ⟨a1, h1, hinv1⟩ := wrapStep_inv2 a names g h
+    obtain ⟨a2, h2, hinv2⟩ := ih a1 _ hinv1
+    refine ⟨a2, ?_, by simpa using hinv2⟩
+    simp [List.foldlM_cons, h1, bind, Except.bind, h2]
+
+
+/-- non-empty names of the classes seen = names of the non-identity classes -/
+theorem names_filter (gs : List G1) : (gs.map g1Name).filter (· ≠ []) = (gs.filter (· != .I)).map g1Name := by
+  induction gs with
+  | nil => rfl
+  | cons g rest ih =>
+    by_cases hg : g = .I
+    · subst hg
+      have : g1Name .I = [] := (g1Name_nil_iff .I).2 rfl
+      simp [this]
+      simpa using ih
+    · have : g1Name g ≠ [] := fun h => hg ((g1Name_nil_iff g).1 h)
+      simp [hg, this]
+      simpa using ih
+
+/-- the structured composite a wrapper with two or more non-identity classes defines -/
+def compOf (gs : List G1) : Comp :=
+  { name := wrapName gs, body := ((gs.filter (· != .I)).map g1Name).reverse }
+
+theorem tokenise_wrapName (gs : List G1) : tokenise (wrapName gs) = (gs.filter (· != .I)).map g1Name := by
+  rw [wrapName_filter]
+  apply tokenise_flatten
+  intro n hn
+  obtain ⟨g, hg, rfl⟩ := List.mem_map.1 hn
+  exact g1Name_tokOK g (by simpa using (List.mem_filter.1 hg).2)
+
+theorem tokenise_g1Name (g : G1) (hg : g ≠ .I) : tokenise (g1Name g) = [g1Name g] := by
+  have := tokenise_flatten [g1Name g] (by intro n hn; simp at hn; subst hn; exact g1Name_tokOK g hg)
+  simpa using this
+
+/-- the name of a wrapper with two or more non-identity classes is not "" and not the name of a single class -/
+theorem wrapName_not_single (gs : List G1) (h2 : 2 ≤ (gs.filter (· != .I)).length) :
+    wrapName gs ≠ [] ∧ ∀ g : G1, wrapName gs ≠ g1Name g := by
+  have htok := tokenise_wrapName gs
+  constructor
+  · intro h0
+    rw [h0] at htok
+    have : tokenise [] = ([] : List Str) := rfl
+    rw [this] at htok
+    have hl := congrArg List.length htok
+    simp at hl; omega
+  · intro g hEq
+    by_cases hg : g = .I
+    · subst hg
+      rw [(g1Name_nil_iff .I).2 rfl] at hEq
+      rw [hEq] at htok
+      have : tokenise [] = ([] : List Str) := rfl
+      rw [this] at htok
+      have hl := congrArg List.length htok
+      simp at hl; omega
+    · rw [hEq, tokenise_g1Name g hg] at htok
+      have hl := congrArg List.length htok
+      simp at hl; omega
+
+/-- definitions a wrapper contributes to the header: plain class definitions, plus — exactly when it has two or more
+    non-identity classes — the composite `compOf gs` with its text -/
+theorem wrapperInfo_defs (gs : List G1) : ∃ i, singleQubitWrapperInfo gs = .ok i ∧
+    (∀ d ∈ i.defs, PlainDef d ∨
+      (2 ≤ (gs.filter (· != .I)).length ∧ d = { text := compText (compOf gs).name (compOf gs).body, comp := some (compOf gs) })) ∧
+    (2 ≤ (gs.filter (· != .I)).length →
+      { text := compText (compOf gs).name (compOf gs).body, comp := some (compOf gs) } ∈ i.defs) := by
+  obtain ⟨a, ha, hinv⟩ := wrapFold_inv gs {} [] wrapInv_init
+  obtain ⟨a2, ha2, hinv2⟩ := wrapFold_inv2 gs {} [] wrapInv2_init
+  rw [ha] at ha2; injection ha2 with ha2; subst ha2
+  simp only [List.nil_append] at hinv hinv2
+  have hgn : a.gateName = wrapName gs := hinv.gateName
+  have hbody : a.body = (compOf gs).body := by rw [hinv.body, names_filter]; rfl
+  have husage : a.defUsage = usageText (compOf gs).body := by rw [hinv2.defUsage, names_filter]; rfl
+  unfold singleQubitWrapperInfo
+  simp only [ha, bind, Except.bind]
+  cases hl : lookupTbl a.dict a.gateName with
+  | some j =>
+    refine ⟨j, rfl, fun d hd => Or.inl (hinv2.dictPlain _ _ hl d hd), ?_⟩
+    intro h2
+    exfalso
+    have hk := hinv2.dictKeys a.gateName (by rw [hl]; rfl)
+    rw [hgn] at hk
+    rcases hk with h0 | h0
+    · exact (wrapName_not_single gs h2).1 h0
+    · obtain ⟨g, _, hg⟩ := List.mem_map.1 h0
+      exact (wrapName_not_single gs h2).2 g hg.symm
+  | none =>
+    have h2 : 2 ≤ (gs.filter (· != .I)).length := by
+      -- otherwise the name is "" or the name of one listed class, both keys of the dictionary
+      rcases Nat.lt_or_ge (gs.filter (· != .I)).length 2 with hlt | hge
+      case inr => exact hge
+      exfalso
+      have hlen : (gs.filter (· != .I)).length ≤ 1 := by omega
+      have hsome : (lookupTbl a.dict a.gateName).isSome = true := by
+        rw [hgn, wrapName_filter]
+        cases hf : gs.filter (· != .I) with
+        | nil => simpa using hinv.dictNil
+        | cons g rest =>
+          cases rest with
+          | nil =>
+            have hmem : g ∈ gs := (List.mem_filter.1 (hf ▸ List.mem_singleton.2 rfl)).1
+            simpa using hinv2.dictHas (g1Name g) (List.mem_map_of_mem hmem)
+          | cons g' rest' => rw [hf] at hlen; simp at hlen
+      rw [hl] at hsome; cases hsome
+    refine ⟨_, rfl, ?_, fun _ => ?_⟩
+    · intro d hd
+      simp only [List.mem_append, List.mem_singleton] at hd
+      rcases hd with hd | hd
+      · exact Or.inl (hinv2.defsPlain d hd)
+      · right
+        refine ⟨h2, ?_⟩
+        rw [hd, hgn, hbody, husage]
+        rfl
+    · simp only [List.mem_append, List.mem_singleton]
+      right
+      rw [hgn, hbody, husage]
+      rfl
+
+
+/-! ### the accumulated header -/
+
+def compEntry (gs : List G1) : DefEntry := { text := compText (compOf gs).name (compOf gs).body, comp := some (compOf gs) }
+
+/-- every header entry is a plain class definition or the composite of some wrapper with ≥ 2 non-identity classes -/
+def EntryOK (d : DefEntry) : Prop := PlainDef d ∨ ∃ gs, 2 ≤ (gs.filter (· != .I)).length ∧ d = compEntry gs
+
+theorem classInfo_defs (k : Cls) (i : QInfo) (h : classInfo k = .ok i) : ∀ d ∈ i.defs, PlainDef d := by
+  unfold classInfo at h
+  cases hg : gateName k with
+  | none => simp [hg] at h
+  | some n =>
+    simp only [hg] at h
+    injection h with h; subst h
+    intro d hd
+    simp only [List.mem_map] at hd
+    obtain ⟨t, ht, rfl⟩ := hd
+    exact ⟨rfl, tbl_defs_no_newline _ (Cls.mem_all _) t ht⟩
+
+theorem info_defs (op : Op) : ∃ i, op.info = .ok i ∧ i.imports = [] ∧ (∀ d ∈ i.defs, EntryOK d) ∧
+    (∀ gs q, op = .wrap gs q → 2 ≤ (gs.filter (· != .I)).length → compEntry gs ∈ i.defs) := by
+  cases op with
+  | wrap gs q =>
+    obtain ⟨i, hi, h1, h2⟩ := wrapperInfo_defs gs
+    obtain ⟨i', hi', _, _, himp⟩ := wrapperInfo_spec gs
+    rw [hi] at hi'; injection hi' with hi'; subst hi'
+    refine ⟨i, hi, himp, ?_, ?_⟩
+    · intro d hd
+      rcases h1 d hd with h | ⟨h, rfl⟩
+      · exact Or.inl h
+      · exact Or.inr ⟨gs, h, rfl⟩
+    · intro gs' q' heq hlen
+      injection heq with heq _; subst heq
+      exact h2 hlen
+  | one g q =>
+    obtain ⟨i, hi, _, _, himp⟩ := classInfo_ok (.g1 g)
+    exact ⟨i, hi, himp, fun d hd => Or.inl (classInfo_defs _ i hi d hd), fun _ _ h => by cases h⟩
+  | ctrl g a b =>
+    obtain ⟨i, hi, _, _, himp⟩ := classInfo_ok (.g2 g)
+    exact ⟨i, hi, himp, fun d hd => Or.inl (classInfo_defs _ i hi d hd), fun _ _ h => by cases h⟩
+  | cctrl g a b c =>
+    obtain ⟨i, hi, _, _, himp⟩ := classInfo_ok (.gc g)
+    exact ⟨i, hi, himp, fun d hd => Or.inl (classInfo_defs _ i hi d hd), fun _ _ h => by cases h⟩
+  | meas q c =>
+    obtain ⟨i, hi, _, _, himp⟩ := classInfo_ok .measZ
+    exact ⟨i, hi, himp, fun d hd => Or.inl (classInfo_defs _ i hi d hd), fun _ _ h => by cases h⟩
+
+theorem foldl_insertDef (new acc : List DefEntry) :
+    (∀ d ∈ new.foldl insertDef acc, d ∈ acc ∨ d ∈ new) ∧ (∀ d ∈ acc, d ∈ new.foldl insertDef acc) ∧
+    (∀ d ∈ new, ∃ x ∈ new.foldl insertDef acc, x.text = d.text) := by
+  induction new generalizing acc with
+  | nil => exact ⟨fun d hd => Or.inl hd, fun d hd => hd, fun d hd => by cases hd⟩
+  | cons n rest ih =>
+    obtain ⟨h1, h2, h3⟩ := ih (insertDef acc n)
+    simp only [List.foldl_cons]
+    have hsub : ∀ d ∈ insertDef acc n, d ∈ acc ∨ d = n := by
+      intro d hd
+      unfold insertDef at hd
+      split at hd
+      · exact Or.inl hd
+      · rcases List.mem_append.1 hd with h | h
+        · exact Or.inl h
+        · exact Or.inr (by simpa using h)
+    have hsup : ∀ d ∈ acc, d ∈ insertDef acc n := by
+      intro d hd
+      unfold insertDef
+      split
+      · exact hd
+      · exact List.mem_append_left _ hd
+    have hn : ∃ x ∈ insertDef acc n, x.text = n.text := by
+      unfold insertDef
+      split
+      · rename_i hany
+        obtain ⟨x, hx, hxt⟩ := List.any_eq_true.1 hany
+        exact ⟨x, hx, by simpa using hxt⟩
+      · exact ⟨n, by simp, rfl⟩
+    refine ⟨?_, fun d hd => h2 d (hsup d hd), ?_⟩
+    · intro d hd
+      rcases h1 d hd with h | h
+      · rcases hsub d h with h' | h'
+        · exact Or.inl h'
+        · exact Or.inr (by simp [h'])
+      · exact Or.inr (by simp [h])
+    · intro d hd
+      rcases List.mem_cons.1 hd with rfl | hd
+      · obtain ⟨x, hx, hxt⟩ := hn
+        exact ⟨x, h2 x hx, hxt⟩
+      · exact h3 d hd
+
+theorem append_sep_inj (c : Char) : ∀ (a b x y : List Char), ¬ c ∈ a → ¬ c ∈ b → a ++ c :: x = b ++ c :: y → a = b
+  | [], [], _, _, _, _, _ => rfl
+  | [], b0 :: bs, x, y, _, hb, h => by
+    simp only [List.nil_append, List.cons_append, List.cons.injEq] at h
+    exact absurd (by simp [h.1]) hb
+  | a0 :: as, [], x, y, ha, _, h => by
+    simp only [List.nil_append, List.cons_append, List.cons.injEq] at h
+    exact absurd (by simp [h.1]) ha
+  | a0 :: as, b0 :: bs, x, y, ha, hb, h => by
+    simp only [List.cons_append, List.cons.injEq] at h
+    rw [h.1, append_sep_inj c as bs x y (fun hm => ha (List.mem_cons_of_mem _ hm)) (fun hm => hb (List.mem_cons_of_mem _ hm)) h.2]
+
+theorem wrapName_no_space (gs : List G1) : ¬ ' ' ∈ wrapName gs := by
+  unfold wrapName
+  intro h
+  obtain ⟨n, hn, hc⟩ := List.mem_flatten.1 h
+  obtain ⟨g, _, rfl⟩ := List.mem_map.1 hn
+  exact tbl_g1Name_no_space g (G1.mem_all g) hc
+
+/-- two wrappers with the same concatenated name define the same composite -/
+theorem compOf_eq_of_name (gs1 gs2 : List G1) (h : wrapName gs1 = wrapName gs2) : compOf gs1 = compOf gs2 := by
+  have h1 := tokenise_wrapName gs1
+  have h2 := tokenise_wrapName gs2
+  rw [h] at h1
+  unfold compOf
+  rw [h, ← h1, ← h2]
+
+theorem compText_has_newline (n : Str) (b : List Str) : '\n' ∈ compText n b := by
+  unfold compText
+  simp
+
+theorem compEntry_text_inj (gs1 gs2 : List G1) (h : (compEntry gs1).text = (compEntry gs2).text) : compEntry gs1 = compEntry gs2 := by
+  have hname : wrapName gs1 = wrapName gs2 := by
+    unfold compEntry compText at h
+    simp only [compOf, List.append_assoc] at h
+    have h' := List.append_cancel_left h
+    exact append_sep_inj ' ' _ _ _ _ (wrapName_no_space gs1) (wrapName_no_space gs2) h'
+  unfold compEntry
+  rw [compOf_eq_of_name gs1 gs2 hname]
+
+theorem entry_of_text (d : DefEntry) (gs : List G1) (hd : EntryOK d) (ht : d.text = (compEntry gs).text) : d = compEntry gs := by
+  rcases hd with ⟨_, hnl⟩ | ⟨gs0, _, rfl⟩
+  · exfalso; apply hnl; rw [ht]; exact compText_has_newline _ _
+  · exact compEntry_text_inj gs0 gs ht
+
+/-- the header of a circuit: all entries are well-formed and every wrapper with two or more non-identity classes has its
+    composite definition in it -/
+theorem headerOf_comps (adds : List Op) : ∃ defs, headerOf adds = .ok ([], defs) ∧ (∀ d ∈ defs, EntryOK d) ∧
+    ∀ gs q, Op.wrap gs q ∈ adds → 2 ≤ (gs.filter (· != .I)).length → compEntry gs ∈ defs := by
+  unfold headerOf
+  have key : ∀ (acc : List DefEntry), (∀ d ∈ acc, EntryOK d) → ∃ defs,
+      adds.foldlM (fun (acc : List Str × List DefEntry) op => do
+        let info ← op.info
+        return (info.imports.foldl insertNew acc.1, info.defs.foldl insertDef acc.2)) ([], acc) = .ok ([], defs) ∧
+      (∀ d ∈ defs, EntryOK d) ∧ (∀ d ∈ acc, d ∈ defs) ∧
+      ∀ gs q, Op.wrap gs q ∈ adds → 2 ≤ (gs.filter (· != .I)).length → compEntry gs ∈ defs := by
+    induction adds with
+    | nil => intro acc hacc; exact ⟨acc, rfl, hacc, fun d hd => hd, fun _ _ h => by cases h⟩
+    | cons op rest ih =>
+      intro acc hacc
+      obtain ⟨i, hi, himp, hok, hcomp⟩ := info_defs op
+      obtain ⟨f1, f2, f3⟩ := foldl_insertDef i.defs acc
+      have hacc' : ∀ d ∈ i.defs.foldl insertDef acc, EntryOK d := by
+        intro d hd
+        rcases f1 d hd with h | h
+        · exact hacc d h
+        · exact hok d h
+      obtain ⟨defs, hd1, hd2, hd3, hd4⟩ := ih (i.defs.foldl insertDef acc) hacc'
+      refine ⟨defs, ?_, hd2, fun d hd => hd3 d (f2 d hd), ?_⟩
+      · simp only [List.foldlM_cons, hi, bind, Except.bind, pure, Except.pure, himp, List.foldl_nil]
+        exact hd1
+      · intro gs q hmem hlen
+        rcases List.mem_cons.1 hmem with heq | hmem
+        · obtain ⟨x, hx, hxt⟩ := f3 (compEntry gs) (hcomp gs q heq.symm hlen)
+          have := entry_of_text x gs (hacc' x hx) hxt
+          exact hd3 _ (this ▸ hx)
+        · exact hd4 gs q hmem hlen
+  obtain ⟨defs, h1, h2, _, h4⟩ := key [] (fun d hd => by cases hd)
+  exact ⟨defs, h1, h2, h4⟩
+
+
+/-! ### the standard reading -/
+
+/-- the primitive standard statements an operation stands for, in application order -/
+def stdSpecOp : Op → List StdOp
+  | .one g q => if g1Name g = [] then [] else [.app (g1Name g) [q]]
+  | .wrap gs q => ((gs.filter (· != .I)).reverse).map fun g => .app (g1Name g) [q]
+  | .ctrl g a b => [.app (g2Name g) [a, b]]
+  | .cctrl .CCNOT a b c => [.measure a c, .cond c "x".toList b]
+  | .cctrl .CCZ a b c => [.measure a c, .cond c "z".toList b]
+  | .cctrl .MCR a b c => [.measure a c, .cond c "x".toList b, .reset a]
+  | .meas q c => [.measure q c]
+
+def stdSpec (seq : List Op) : List StdOp := seq.flatMap stdSpecOp
+
+/-- the composites of a well-formed header -/
+def CompsOK (comps : List Comp) : Prop := ∀ cp ∈ comps, ∃ gs, 2 ≤ (gs.filter (· != .I)).length ∧ cp = compOf gs
+
+theorem compsOK_of_entries (defs : List DefEntry) (h : ∀ d ∈ defs, EntryOK d) : CompsOK (compsOf defs) := by
+  intro cp hcp
+  unfold compsOf at hcp
+  obtain ⟨d, hd, hdc⟩ := List.mem_filterMap.1 hcp
+  rcases h d hd with ⟨hn, _⟩ | ⟨gs, hl, rfl⟩
+  · rw [hn] at hdc; cases hdc
+  · simp only [compEntry, Option.some.injEq] at hdc
+    exact ⟨gs, hl, hdc.symm⟩
+
+theorem findComp_some (comps : List Comp) (name : Str) (cp : Comp) (h : findComp comps name = some cp) :
+    cp ∈ comps ∧ cp.name = name := by
+  unfold findComp at h
+  exact ⟨List.mem_of_find?_eq_some h, by simpa using List.find?_some h⟩
+
+theorem findComp_g1 (comps : List Comp) (hc : CompsOK comps) (g : G1) : findComp comps (g1Name g) = none := by
+  cases h : findComp comps (g1Name g) with
+  | none => rfl
+  | some cp =>
+    exfalso
+    obtain ⟨hm, hn⟩ := findComp_some comps _ cp h
+    obtain ⟨gs, hl, rfl⟩ := hc cp hm
+    exact (wrapName_not_single gs hl).2 g hn
+
+theorem findComp_g2 (comps : List Comp) (hc : CompsOK comps) (g : G2) : findComp comps (g2Name g) = none := by
+  cases h : findComp comps (g2Name g) with
+  | none => rfl
+  | some cp =>
+    exfalso
+    obtain ⟨hm, hn⟩ := findComp_some comps _ cp h
+    obtain ⟨gs, hl, rfl⟩ := hc cp hm
+    have hn' : wrapName gs = g2Name g := hn
+    have htok := tokenise_wrapName gs
+    rw [hn'] at htok
+    apply tbl_g2_not_concat g (mem_g2 g)
+    rw [htok]
+    refine ⟨by simpa using hl, ?_⟩
+    intro t ht
+    obtain ⟨g', hg', rfl⟩ := List.mem_map.1 ht
+    exact g1Name_mem_g1Names g' (by simpa using (List.mem_filter.1 hg').2)
+
+theorem findComp_wrap (comps : List Comp) (hc : CompsOK comps) (gs : List G1) (_hl : 2 ≤ (gs.filter (· != .I)).length)
+    (hmem : compOf gs ∈ comps) : findComp comps (wrapName gs) = some (compOf gs) := by
+  cases h : findComp comps (wrapName gs) with
+  | none =>
+    exfalso
+    unfold findComp at h
+    have := List.find?_eq_none.1 h (compOf gs) hmem
+    simp [compOf] at this
+  | some cp =>
+    obtain ⟨hm, hn⟩ := findComp_some comps _ cp h
+    obtain ⟨gs0, _, rfl⟩ := hc cp hm
+    rw [compOf_eq_of_name gs0 gs hn]
+
+/-- standard reading of the statements of one operation = the operation's own primitive statements -/
+theorem std_appOf (comps : List Comp) (hc : CompsOK comps) (op : Op)
+    (hw : ∀ gs q, op = .wrap gs q → 2 ≤ (gs.filter (· != .I)).length → compOf gs ∈ comps) :
+    (appOf op).flatMap (stdStmt comps) = stdSpecOp op := by
+  cases op with
+  | one g q =>
+    simp only [appOf, stdSpecOp]
+    split
+    · rfl
+    · simp [stdStmt, findComp_g1 comps hc g]
+  | ctrl g a b => simp [appOf, stdSpecOp, stdStmt, findComp_g2 comps hc g]
+  | cctrl g a b c => cases g <;> simp [appOf, stdSpecOp, stdStmt]
+  | meas q c => simp [appOf, stdSpecOp, stdStmt]
+  | wrap gs q =>
+    simp only [appOf, stdSpecOp]
+    rcases Nat.lt_or_ge (gs.filter (· != .I)).length 2 with hlt | hge
+    · -- at most one non-identity class: the name is "" or a single class name
+      cases hf : gs.filter (· != .I) with
+      | nil =>
+        have : wrapName gs = [] := by rw [wrapName_filter, hf]; rfl
+        simp [this]
+      | cons g rest =>
+        cases rest with
+        | cons g' rest' => rw [hf] at hlt; simp at hlt; omega
+        | nil =>
+          have hgI : g ≠ .I := by
+            have := (List.mem_filter.1 (hf ▸ List.mem_singleton.2 rfl : g ∈ gs.filter (· != .I))).2
+            simpa using this
+          have hname : wrapName gs = g1Name g := by rw [wrapName_filter, hf]; simp
+          have hne : g1Name g ≠ [] := fun h => hgI ((g1Name_nil_iff g).1 h)
+          simp [hname, hne, stdStmt, findComp_g1 comps hc g]
+    · have hne := (wrapName_not_single gs hge).1
+      have hfc := findComp_wrap comps hc gs hge (hw gs q rfl hge)
+      simp only [hne, if_false, List.flatMap_cons, List.flatMap_nil, List.append_nil, stdStmt, hfc]
+      simp [compOf, List.map_reverse]
+
+theorem std_emit (comps : List Comp) (bar : Stmt) (hb : stdStmt comps bar = []) (seq : List Op) (o : Bool) :
+    (emit bar o seq).flatten.flatMap (stdStmt comps) = seq.flatMap fun op => (appOf op).flatMap (stdStmt comps) := by
+  induction seq generalizing o with
+  | nil => simp [emit]
+  | cons op rest ih =>
+    rw [emit_cons_flatten, List.flatMap_append, List.flatMap_append, ih, List.flatMap_cons]
+    split <;> simp [hb]
+
+theorem flatMap_congr_mem {α β : Type} (l : List α) (f g : α → List β) (h : ∀ x ∈ l, f x = g x) :
+    l.flatMap f = l.flatMap g := by
+  induction l with
+  | nil => rfl
+  | cons a rest ih =>
+    simp only [List.flatMap_cons, h a (by simp), ih (fun x hx => h x (by simp [hx]))]
+
+/-- **standard reading**: read with standard openQASM 2.0 semantics (a call of a composite gate executes its body in
+    textual order), the exported program denotes exactly the circuit's own primitive operations, in `sequence()` order -/
+theorem qasmStd_toOpenqasm (c : Circuit) (seq : List Op) (hsub : ∀ op ∈ seq, op ∈ c.ops) :
+    ∃ p, toOpenqasm c seq = .ok p ∧ qasmStd p = stdSpec seq := by
+  obtain ⟨defs, hh, hentries, hcomps⟩ := headerOf_comps c.ops
+  obtain ⟨defs', hh', hp⟩ := toOpenqasm_spec c seq
+  rw [hh] at hh'; injection hh' with hh'
+  have hdefs : defs' = defs := by injection hh' with _ h2; exact h2.symm
+  subst hdefs
+  refine ⟨_, hp, ?_⟩
+  unfold qasmStd stdSpec
+  simp only
+  have hc := compsOK_of_entries defs' hentries
+  rw [std_emit _ _ (by rfl) seq false]
+  apply flatMap_congr_mem
+  intro op hop
+  apply std_appOf _ hc op
+  intro gs q heq hl
+  have hmem := hcomps gs q (heq ▸ hsub op hop) hl
+  unfold compsOf
+  exact List.mem_filterMap.2 ⟨compEntry gs, hmem, rfl⟩
+
+theorem stdOfOp_spec (o : Op) (h : ∀ gs q, o ≠ .wrap gs q) : stdOfOp o = .ok (stdSpecOp o) := by
+  cases o with
+  | wrap gs q => exact absurd rfl (h gs q)
+  | one g q =>
+    obtain ⟨i, hi, hn, _, _, _⟩ := classInfo_g1 g
+    simp only [stdOfOp, hi, bind, Except.bind, pure, Except.pure, stdSpecOp, hn]
+    by_cases h0 : g1Name g = [] <;> simp [h0]
+  | ctrl g a b =>
+    simp only [stdOfOp, classInfo, gateName_g2, bind, Except.bind, pure, Except.pure, stdSpecOp]
+  | cctrl g a b c => cases g <;> rfl
+  | meas q c => rfl
+
+theorem mapM_stdOfOp (l : List Op) (h : ∀ o ∈ l, ∀ gs q, o ≠ .wrap gs q) : l.mapM stdOfOp = .ok (l.map stdSpecOp) := by
+  induction l with
+  | nil => rfl
+  | cons o rest ih =>
+    rw [List.mapM_cons, stdOfOp_spec o (h o (by simp)), ih (fun x hx => h x (by simp [hx]))]
+    rfl
+
+theorem unwrap_no_wrap (op : Op) : ∀ o ∈ op.unwrap, ∀ gs q, o ≠ .wrap gs q := by
+  intro o ho gs q heq
+  subst heq
+  cases op <;> simp [Op.unwrap] at ho
+
+theorem stdSpec_unwrap (op : Op) : (op.unwrap).flatMap stdSpecOp = stdSpecOp op := by
+  cases op with
+  | wrap gs q =>
+    simp only [Op.unwrap, stdSpecOp]
+    rw [← List.filter_reverse]
+    induction gs.reverse with
+    | nil => rfl
+    | cons g rest ih =>
+      simp only [List.map_cons, List.flatMap_cons, ih, stdSpecOp]
+      by_cases hg : g = .I
+      · subst hg; simp [(g1Name_nil_iff G1.I).2 rfl]
+      · have : g1Name g ≠ [] := fun h => hg ((g1Name_nil_iff g).1 h)
+        simp [hg, this]
+  | one g q => simp [Op.unwrap]
+  | ctrl g a b => simp [Op.unwrap]
+  | cctrl g a b c => simp [Op.unwrap]
+  | meas q c => simp [Op.unwrap]
+
+/-- the model's own reading of the circuit (`stdOfCircuit`, printed by the driver as `ref=`) is `stdSpec` -/
+theorem stdOfCircuit_spec (seq : List Op) : stdOfCircuit seq = .ok (stdSpec seq) := by
+  unfold stdOfCircuit
+  rw [mapM_stdOfOp _ (by
+    intro o ho
+    obtain ⟨op, _, hop⟩ := List.mem_flatMap.1 ho
+    exact unwrap_no_wrap op o hop)]
+  simp only [bind, Except.bind, pure, Except.pure]
+  congr 1
+  unfold stdSpec
+  induction seq with
+  | nil => rfl
+  | cons op rest ih =>
+    simp only [List.flatMap_cons, List.map_append, List.flatten_append, ih]
+    congr 1
+    rw [← stdSpec_unwrap op]
+    simp [List.flatMap]
 
 end Graphiq.Export
